@@ -437,6 +437,8 @@ def run_check(mod_name, tier, seed, jobs=None, replay=None, only=None):
             print(f"VIOLATION property={pid} replay=none")
         if violations:
             return 1
+        if replay or only is not None:
+            return 0
         if inconclusive or nontrivial < 2:
             for msg in inconclusive:
                 print(f"INCONCLUSIVE property={pid} {msg}")
